@@ -104,15 +104,41 @@ func fpos(r0, sbit, ln, j int) (int, int) {
 func run(r *hk.Run) {
 	r.SetCoq("From NV Require Import Lib.Base Lib.BV C09.Types C09.Corr.\nFrom Coq Require Import String.\nOpen Scope N_scope.\nOpen Scope string_scope.", "case")
 	reps := r.N(2, 12)
+	// the generated table, then the pinned entries the generated table no longer has (implementation only)
+	have := map[string]bool{}
 	for _, a := range genAccs {
+		have[a.T+"."+a.M] = true
+	}
+	accs := append([]accInfo(nil), genAccs...)
+	nGen := len(accs)
+	for _, a := range pinnedAccs {
+		if !have[a.T+"."+a.M] {
+			accs = append(accs, a)
+		}
+	}
+	r.Extra["pinned_accessors_not_in_generated_table"] = len(accs) - nGen
+	for ai, a := range accs {
+		implOnly := ai >= nGen
 		mk, ok := genTypes[a.T]
 		if !ok {
 			continue
 		}
-		for rep := 0; rep < reps; rep++ {
+		// beyond the random repetitions: elements that are a fixed octet array with a length field are also
+		// tried with every small value of that field (an accessor must not move with the declared length)
+		sweep := 0
+		if pe := inspect(mk()); pe.lenW > 0 && pe.hasOct && !pe.isBuf && !pe.scalar && a.M != "SetLen" && a.M != "GetLen" {
+			sweep = pe.arrN + 1
+			if sweep > 10 {
+				sweep = 10
+			}
+		}
+		for rep := 0; rep < reps+sweep; rep++ {
 			p := mk()
 			e := inspect(p)
 			m := e.v.MethodByName(a.M)
+			if !m.IsValid() && implOnly {
+				continue // removed from the API: nothing to check
+			}
 			if !m.IsValid() {
 				r.Fail(hk.Failure{Site: "nasType." + a.T + "." + a.M, Class: "missing", Input: "", Detail: "method not found by reflection"})
 				continue
@@ -160,6 +186,9 @@ func run(r *hk.Run) {
 			}
 			if !e.hasIei {
 				iei = 0
+			}
+			if rep >= reps {
+				ln = uint16(rep - reps)
 			}
 			if a.Set && strings.HasSuffix(a.M, "SetLen") && e.isBuf {
 				ln %= 40 // allocating SetLen: keep the allocation small
@@ -231,12 +260,18 @@ func run(r *hk.Run) {
 				}
 				obs = fmt.Sprintf("(ORes %d %d %s %s)", i2, l2, hk.CoqBytes(o2), ret)
 			}
-			r.AddCase(fmt.Sprintf("(%d, %q, %q, (%d, %d, %s), %d, %s, %s)", id, a.T, a.M, iei, ln, hk.CoqBytes(oct), v, hk.CoqBytes(pb), obs), in)
+			if !implOnly {
+				r.AddCase(fmt.Sprintf("(%d, %q, %q, (%d, %d, %s), %d, %s, %s)", id, a.T, a.M, iei, ln, hk.CoqBytes(oct), v, hk.CoqBytes(pb), obs), in)
+			}
 			key := ""
 			if rep >= 2 {
 				key = in
 			}
-			r.Count(map[bool]string{true: "setters", false: "getters"}[a.Set], key)
+			stream := map[bool]string{true: "setters", false: "getters"}[a.Set]
+			if rep >= reps {
+				stream += "_len_sweep"
+			}
+			r.Count(stream, key)
 			if rep == 2 {
 				r.Sample(in)
 			}
@@ -393,6 +428,50 @@ func run(r *hk.Run) {
 			}
 		}
 	}
+	// ---- SetLen on a Buffer-backed element hands out storage of its own: a value that still refers to the
+	// previous Buffer (a struct copy, a slice kept by the caller) is not written through the new one
+	setLenTrials := 0
+	for _, tn := range typeNames {
+		e := inspect(genTypes[tn]())
+		if !e.isBuf {
+			continue
+		}
+		m := e.v.MethodByName("SetLen")
+		if !m.IsValid() || m.Type().NumIn() != 1 {
+			continue
+		}
+		for _, n := range []int{1, 5, 13} {
+			e = inspect(genTypes[tn]())
+			old := bytes.Repeat([]byte{0xee}, 16)
+			e.set(0, 16, old)
+			_, _, cur := e.get()
+			if len(cur) != 16 {
+				continue
+			}
+			// the element now refers to its own copy of old (e.set copies); keep a second reference to it
+			held := e.v.Elem().FieldByName("Buffer").Bytes()
+			arg := reflect.New(m.Type().In(0)).Elem()
+			arg.SetUint(uint64(n))
+			m = e.v.MethodByName("SetLen")
+			if p, _ := hk.Catch(func() { m.Call([]reflect.Value{arg}) }); p {
+				continue
+			}
+			nb := e.v.Elem().FieldByName("Buffer").Bytes()
+			for i := range nb {
+				nb[i] = 0x11
+			}
+			setLenTrials++
+			for _, x := range held {
+				if x != 0xee {
+					r.Fail(hk.Failure{Site: "nasType." + tn + ".SetLen", Class: "setlen-reuses-storage",
+						Input:  fmt.Sprintf("Buffer of 16 octets, SetLen(%d), then the new Buffer is filled", n),
+						Detail: "the octets of the previous Buffer changed: SetLen did not allocate, a value still referring to the old Buffer (struct copy) is written through"})
+					break
+				}
+			}
+		}
+	}
+	r.Extra["setlen_alias_trials"] = setLenTrials
 	r.Extra["copy_accessor_trials"] = copyTrials
 	r.Extra["accessors"] = len(genAccs)
 }
